@@ -9,7 +9,7 @@
    the model can and does state about independence is the frame property of updates (T4).  Object sharing on the
    implementation is checked by the two-run oracle of check/props/c06.py and by the pointer-level walker. *)
 From Coq Require Import List NArith Bool.
-From GY Require Import Model.Schema Spec.C06 Spec.C04 Proofs.SchemaLemmas Proofs.GroupingProofs.
+From GY Require Import Model.Schema Spec.C06 Spec.C04 Proofs.SchemaLemmas Proofs.GroupingProofs Proofs.GroupingProcess.
 Import ListNotations.
 
 (* ------------------------------------------------------------------ T1 faithful *)
@@ -41,6 +41,25 @@ Theorem C06_T1_module_statements : forall SC m scopes body body',
   inline_stmts SC m scopes body = Some body' ->
   forall c2 busy2, body_entry SC m scopes body = to_entry SC (entry_fuel SC) c2 busy2 (DGrouping O [] body').
 Proof. exact inline_stmts_faithful. Qed.
+
+(* T1 for the processed result: where the reference expansion succeeds for every statement list of every module and
+   submodule and every augment body ([inline_schema], Spec/C06.v), processing the inlined module set gives exactly
+   the result of processing the original one -- the same forest (every tree, after include merging, augmentation,
+   FixChoice and deviations) or the same error verdict -- for every visiting order and all options.  No side
+   condition: the inlined statements are shown to fit the fuel of the inlined module set. *)
+Theorem C06_T1_process : forall SC SC' ignoreCirc ignoreNotSupported order,
+  inline_schema SC = Some SC' ->
+  Process SC' ignoreCirc ignoreNotSupported order = Process SC ignoreCirc ignoreNotSupported order.
+Proof. exact inline_schema_process. Qed.
+
+(* what makes it work: a statement without uses is built the same way whatever the module set, the context, the busy
+   set and the fuel (above its nesting depth), and the inlined form is such a statement *)
+Theorem C06_T1_uses_free_independent : forall f f' n, plain f n -> plain f' n ->
+  forall SC SC' c c' busy busy', to_entry SC f c busy n = to_entry SC' f' c' busy' n.
+Proof. exact to_entry_plain. Qed.
+
+Theorem C06_T1_inlined_is_uses_free : forall SC f c busy n n', inline_node SC f c busy n = Some n' -> plain f n'.
+Proof. exact inline_plain. Qed.
 
 (* namespace: no node built from sources carries a namespace stamp (only Augment stamps), so every copy belongs to
    the namespace of the tree it is in -- the module that uses the grouping, not the one that defines it *)
@@ -183,3 +202,34 @@ Definition ex_unknown : module :=
 Example C06_ex_unknown : inline_stmts [ex_unknown] ex_unknown [] (m_body ex_unknown) = None /\
   Process [ex_unknown] false false [n_m] = RErr.
 Proof. vm_compute. split; reflexivity. Qed.
+
+(* two modules: m2 defines g (which uses its own h) and k; m uses x:g inside its own grouping o, at module level through
+   an augment of m2's container, and o twice; the whole set inlines, and Process agrees on both *)
+Definition n_k := s [107]. Definition n_o := s [111]. Definition n_x2 := s [120;58;103].
+Definition n_m2 := s [109;50]. Definition n_p2 := s [113].
+Definition ex_m2 : module :=
+  {| m_name := n_m2; m_prefix := n_p2; m_ns := s [118]; m_belongs := None; m_imports := []; m_includes := [];
+     m_body := [DGrouping 1 n_h [lf n_y; DList n_k None TSUnset (Some 1%N) None [lf n_x]];
+                DGrouping 2 n_g [DContainer n_b TSUnset [DUses n_h]; DChoice n_o TSUnset TSUnset None [lf n_a]];
+                DContainer n_a TSUnset [DUses (s [113;58;103])]];
+     m_augments := []; m_deviations := [] |}.
+Definition ex_m1 : module :=
+  {| m_name := n_m; m_prefix := n_p; m_ns := s [117]; m_belongs := None; m_imports := [(s [120], n_m2)]; m_includes := [];
+     m_body := [DGrouping 3 n_o [DContainer n_g TSUnset [DUses n_x2]; lf n_k];
+                DContainer n_a TSUnset [DUses n_o];
+                DRpc false n_b (Some [DUses (s [112;58;111])]) None];
+     m_augments := [(s [47;120;58;97], [DContainer n_h TSUnset [DUses n_x2]])];
+     m_deviations := [(s [47;112;58;97;47;112;58;107], [{| dv_kind := s_replace; dv_cfg := TSFalse; dv_mand := TSUnset;
+                        dv_default := None; dv_min := None; dv_max := None; dv_units := None; dv_type := None |}])] |}.
+Definition ex_set : schema := [ex_m1; ex_m2].
+
+Example C06_ex_process : exists SC' F,
+  inline_schema ex_set = Some SC' /\
+  Process ex_set false false [n_m; n_m2] = ROk F /\ Process SC' false false [n_m; n_m2] = ROk F /\
+  forallb (fun m => forallb uses_free (m_body m) && forallb (fun a => forallb uses_free (snd a)) (m_augments m)) SC' = true /\
+  locate_pos F (n_m2, [SChild n_a; SChild n_h; SChild n_b; SChild n_k; SChild n_x]) <> None /\
+  locate_pos F (n_m, [SChild n_b; SIn; SChild n_g; SChild n_o; SChild n_a; SChild n_a]) <> None.
+Proof.
+  eexists. eexists. split; [vm_compute; reflexivity|]. split; [vm_compute; reflexivity|].
+  split; [vm_compute; reflexivity|]. vm_compute. repeat split; discriminate.
+Qed.
